@@ -9,6 +9,7 @@ import traceback
 import z3
 
 from . import ops
+from . import limits
 from .ctx import Engine, PathCtx
 from .heap import snapshot, struct_eq
 from .interp import Interp, Env, View, PathEnd, UNDEF, _b
@@ -544,7 +545,6 @@ class IncrementalPathSolver(object):
 
     def __init__(self, timeout_ms):
         self.s = z3.Solver()
-        self.s.set("timeout", 400)
         self.npc = 0
         self.prefix_ids = []
         self.timeout_ms = timeout_ms
@@ -563,7 +563,10 @@ class IncrementalPathSolver(object):
         self.npc = len(ob.pc)
         self.s.push()
         self.s.add(z3.Not(ob.goal))
-        r = self.s.check()
+        t1 = time.time()
+        r0 = _rl(self.s) if os.environ.get("VERIF_RLSTATS") else 0
+        r = limits.check(self.s, 400)
+        _stat("incr", self.s, t1, r, r0)
         if r == z3.unsat:
             self.s.pop()
             return Verdict(ob, "discharged", "z3", time.time() - t0)
@@ -577,9 +580,29 @@ class IncrementalPathSolver(object):
         return solve_obligation(ob, ob.symbols, self.timeout_ms)
 
 
+def _rl(solver):
+    try:
+        st = solver.statistics()
+        for k in st.keys():
+            if k == "rlimit count":
+                return st.get_key_value(k)
+    except Exception:
+        pass
+    return 0
+
+
+def _stat(tag, solver, t0, r, r0=0):
+    pth = os.environ.get("VERIF_RLSTATS")
+    if pth:
+        with open(pth, "a") as fh:
+            fh.write("%s %.4f %d %s\n" % (tag, time.time() - t0, _rl(solver) - r0, r))
+
+
 def _check(solver, timeout_ms):
-    solver.set("timeout", timeout_ms)
-    return solver.check()
+    t0 = time.time()
+    r = limits.check(solver, timeout_ms)
+    _stat("full", solver, t0, r)
+    return r
 
 
 def solve_obligation(ob, symbols, timeout_ms=None):
@@ -716,12 +739,11 @@ def find_candidate(ob, symbols, timeout_ms):
                 if gc is not None:
                     parts.append(gc)
         s = z3.Solver()
-        s.set("timeout", timeout_ms)
         s.add(*parts)
         for name, sym in symbols.items():
             if hasattr(sym, "arrays"):
                 s.add(sym.arrays.n <= 3)
-        if s.check() != z3.sat:
+        if limits.check(s, timeout_ms) != z3.sat:
             return None
         return extract_model(s.model(), symbols)
     except z3.Z3Exception:
@@ -759,12 +781,11 @@ def _bounded_model(formulas, symbols, timeout_ms):
             if gc is not None:
                 parts.append(gc)
     s = z3.Solver()
-    s.set("timeout", timeout_ms)
     s.add(*parts)
     for name, sym in symbols.items():
         if hasattr(sym, "arrays"):
             s.add(sym.arrays.n <= 3)
-    if s.check() != z3.sat:
+    if limits.check(s, timeout_ms) != z3.sat:
         return None
     return extract_model(s.model(), symbols)
 
@@ -814,8 +835,14 @@ def cvc5_check(smt2, timeout_ms):
             fh.write(text)
             path = fh.name
         try:
-            out = subprocess.run([exe, "--strings-exp", "--tlimit=%d" % timeout_ms, path],
-                                 capture_output=True, text=True, timeout=timeout_ms / 1000.0 + 5)
+            cpu_s = int(timeout_ms / 1000.0) + 1
+
+            def _cpu_limit():       # CPU budget (load-independent); the wall-clock limits are only a backstop
+                import resource
+                resource.setrlimit(resource.RLIMIT_CPU, (cpu_s, cpu_s + 1))
+            out = subprocess.run([exe, "--strings-exp", "--tlimit=%d" % (timeout_ms * limits.WALL_FACTOR), path],
+                                 capture_output=True, text=True, timeout=timeout_ms * limits.WALL_FACTOR / 1000.0 + 5,
+                                 preexec_fn=_cpu_limit)
             first = out.stdout.strip().splitlines()[0] if out.stdout.strip() else ""
             if first in ("sat", "unsat"):
                 return first
@@ -871,10 +898,9 @@ def verify_contract(program, registry, con, timeout_ms=None, active_cases=None, 
             if covers.get(name):
                 continue
             s = z3.Solver()
-            s.set("timeout", 5000)
             for c in pc:
                 s.add(c)
-            covers[name] = (s.check() != z3.unsat)
+            covers[name] = (limits.check(s, 5000) != z3.unsat)
     res["covers"] = covers
     solver_s = 0.0
     seen_keys = set()
